@@ -4,6 +4,10 @@ import json, os
 HERE = os.path.dirname(os.path.dirname(os.path.abspath(__file__)))
 
 CHECKS = {
+ 'C18': dict(level='exploration', design='2/C18',
+   technique='exhaustive enumeration of configuration programs (sequences of conditional blocks over a header alphabet x option-set variants x targets) resolved by the real SSHClientConfig and compared with what OpenSSH `ssh -G` resolves for the same file; exhaustive template x user-name enumeration for the server-side %u expansion',
+   text='Every sequence of 1-2 (thorough 3) blocks over 18 Host/Match headers, each block assigning every option under test a distinct value so the result identifies which blocks applied and in which order, in three variants (plain; = and quoted spellings, Hostname with %h, IdentityFile tokens %h %r %p %n %% %d %u, accumulating SendEnv/SetEnv; Include of existing, nested and non-matching files), for 12 targets: User, Hostname, Port, Compression, ProxyJump, IdentityFile list, SendEnv and SetEnv must equal ssh -G. Server: 7 AuthorizedKeysFile templates x 31 user names: IllegalUserName, or the name inserted as inert text inside single path components.',
+   note='Match exec / canonical / final need DNS or a shell and are not generated; ssh -G prints IdentityFile unexpanded, tokens are expanded per ssh_config(5).'),
  'C17': dict(level='exploration', design='2/C17',
    technique='bounded-exhaustive enumeration of known_hosts files x queries and authorized_keys option lists x clients on the real lookup code against a reference model written from the OpenSSH file-format rules (plus documented extensions), with ssh-keygen -F as a second implementation',
    text='Every host pattern list of 1-2 atoms over a 19-atom alphabet (names, wildcards incl. address-only ones, negation, addresses, CIDR, [host]:port, bracketed names) plus hashed forms x 3 markers in 1- and 2-line files is looked up for 51 (host, address, port) queries; the returned trusted/CA/revoked key sets must equal the model (positive-and-not-negative rule, hashed names, port form with fallback to the plain name). ssh-keygen -F must agree on its subset. 19 damaged key fields (incl. well-framed keys with impossible parameters) before/between/after good lines must be skipped in both file types. authorized_keys option lists of 0-3 atoms over 21 option atoms x 4 clients x principal sets must select the same entries with the same option values as the model.',
